@@ -270,6 +270,66 @@ def cwd_stream(res):
     return vlib.correspond(res, "working-directory", cases, impl, base, lambda c: c, lambda c, a: "cwd=/ " not in c + " ", oracle, samples=2)
 
 
+# ------------------------------------------- same file!() string, different packages ---
+
+# two packages (and a workspace member) whose failing file has the same compiler-relative name
+PKG_FILES = {
+    "p1/src/lib.rs": "// package one\nfn one() {\n    assert_struct!(a, A { x: 1 });\n}\n// end of one\n",
+    "p2/src/lib.rs": "// package TWO has other text\nfn two() {\n    let q = 2; assert_struct!(b, [2, ..]);\n}\n// end of two\n",
+    "ws/member/src/lib.rs": "// workspace member\nmod m {\n    fn three() { assert_struct!(c, Some(3)); }\n}\n// end of three\n",
+    "p1/tests/it.rs": "// p1 integration test\n#[test] fn t() {\n    assert_struct!(d, D { .. });\n}\n//\n",
+    "p2/tests/it.rs": "// p2 integration test, different\n#[test] fn u() {\n    assert_struct!(e, #(1, 2));\n}\n//\n",
+}
+PKG_PAIRS = [("p1", "src/lib.rs"), ("p2", "src/lib.rs"), ("ws/member", "src/lib.rs"), ("p1", "tests/it.rs"), ("p2", "tests/it.rs")]
+
+
+def crossdir_stream(res, tier, seed):
+    """History and concurrency across packages: every report must show its OWN package's source although the
+    file!() strings coincide."""
+    d = os.path.join(vlib.WORK, "tmp", "c17")
+    rng = random.Random(seed * 7 + 5)
+    setup = ["c17file\t%s\t%s" % (hx(n), hx(c)) for n, c in PKG_FILES.items()]
+    orders = [PKG_PAIRS, PKG_PAIRS[::-1], [PKG_PAIRS[1], PKG_PAIRS[0]], [PKG_PAIRS[0], PKG_PAIRS[1]], [PKG_PAIRS[4], PKG_PAIRS[3], PKG_PAIRS[2]]]
+    for _ in range(4 if tier == "quick" else 40):
+        k = rng.randint(2, 5)
+        orders.append(rng.sample(PKG_PAIRS, k))
+    lines, meta = [], []
+    for o in orders:
+        for mode, rounds in (("seq", 2), ("par", 6 if tier == "quick" else 60)):
+            lines.append("\t".join(["crossdir", mode, str(rounds)] + [x for (pd, f) in o for x in (hx(os.path.join(d, pd)), hx(f))]))
+            meta.append((mode, o))
+    out = vlib.run_harness("rt", setup + lines, env_extra={"RT_QUIET": "1"})[len(setup):]
+    cases, impl, want = [], [], []
+    problems = {}
+    for (mode, o), line in zip(meta, out):
+        body, alone_s = line.split(" | alone=")
+        alone = [unhx(x).decode("utf-8") for x in alone_s.split(",")]
+        for ri, same in enumerate(body.split(",")):
+            case = "%s %s round=%d" % (mode, ",".join("%s:%s" % p for p in o), ri)
+            cases.append(case)
+            impl.append(same)
+            want.append("1" * len(o))
+            why = None
+            for i, ok in enumerate(same):
+                if ok != "1":
+                    why = ("the report of a failure in %s/%s differs from the report of the same failure alone when failures in %s "
+                           "happen %s (same file!() string in another package)" %
+                           (o[i][0], o[i][1], ", ".join("%s/%s" % p for j, p in enumerate(o) if j != i),
+                            "earlier in the process" if mode == "seq" else "at the same time"))
+                    break
+            if why is None:
+                for i, (pd, f) in enumerate(o):
+                    own = PKG_FILES[pd + "/" + f].split("\n")[1 + i % 3 - 0] if False else None
+                    text = alone[i]
+                    src_lines = PKG_FILES[pd + "/" + f].split("\n")
+                    if not any(l.strip() and l in text for l in src_lines):
+                        why = "the report for %s/%s shows none of that file's lines" % (pd, f)
+                        break
+            problems[case] = why
+    return vlib.correspond(res, "same-file-string-across-packages", cases, impl, want, lambda c: c,
+                           lambda c, a: c.count("src/lib.rs") >= 2 or c.count("tests/it.rs") >= 2, lambda c, a: problems[c], samples=2)
+
+
 # -------------------------------------------------------------------- run ---
 
 def known_corpus():
@@ -348,6 +408,13 @@ def run(res):
     st2 = vlib.correspond(res, "cache-contention", cases, impl, model,
                           lambda c: c, c_nontrivial, c_oracle)
     if st2["disagreements"] == 0 and st2["oracle_failures"] == 0:
+        res.discharged.append(name)
+
+    # 2b. the same file!() string in different packages: history and concurrency
+    name = "direct:reports of packages sharing a file!() string (history, concurrency)"
+    res.obligations.append(name)
+    st2b = crossdir_stream(res, res.tier, res.seed)
+    if st2b["disagreements"] == 0 and st2b["oracle_failures"] == 0:
         res.discharged.append(name)
 
     # 3. renderer choice and 4. working directory
